@@ -1,6 +1,7 @@
 import GV.Basic.Hex
 import GV.Model.Sched
 import GV.Spec.GoChanRefine
+import GV.Model.SchedInv
 
 /-! Driver for C03: topic `chan`.
     `chan reset`                     → fresh runtime state
@@ -106,7 +107,8 @@ def handle (d : DState) : List String → DState × String
       else match verdict d.s ev o s', deadlockVerdict d.s s' with
         | some m, _ => (⟨s', true⟩, s!"SPEC:{m}")
         | none, some m => (⟨s', true⟩, s!"SPEC:{m}")
-        | none, none => (⟨s', false⟩, line)
+        | none, none =>
+          if GV.SchedInv.globalInv s' then (⟨s', false⟩, line) else (⟨s', true⟩, "SPEC:global-invariant-broken")
   | _ => (d, "bad-op")
 
 end GV.Driver.C03
